@@ -350,7 +350,11 @@ def apply_projs(base, projs, local_term):
             elif "i" in x:
                 t = ("index", t, local_term(x["i"]))
             elif "ci" in x:
-                t = ("cindex", t, x["ci"], x["from_end"])
+                # a slice-pattern binding `[a, b, ..]` reads the same element as `s[0]`, `s[1]`
+                if not x["from_end"]:
+                    t = ("index", t, ("const", x["ci"], None, "usize"))
+                else:
+                    t = ("cindex", t, x["ci"], x["from_end"])
             elif "sub" in x:
                 t = ("subslice", t, x["sub"][0], x["sub"][1], x["from_end"])
             elif "dc" in x:
@@ -379,6 +383,15 @@ def _phi(ts):
 
 
 def field(t, name, idx):
+    # payload of `s.get(k)` / `s.first()` on a slice or Vec: the element `s[k]` / `s[0]` (by reference)
+    if t[0] == "downcast" and t[2] == "Some" and idx == 0:
+        c = strip(t[1])
+        if c[0] == "call" and ("[T]" in c[1] or "slice" in c[1] or "Vec" in c[1]):
+            last = c[1].rsplit("::", 1)[-1]
+            if last == "get" and len(c[2]) == 2 and strip(c[2][1])[0] != "agg":
+                return ("ref", "shared", ("index", deref(c[2][0]) if strip(c[2][0])[0] == "ref" else c[2][0], c[2][1]))
+            if last == "first" and len(c[2]) == 1:
+                return ("ref", "shared", ("index", deref(c[2][0]) if strip(c[2][0])[0] == "ref" else c[2][0], ("const", 0, None, "usize")))
     if t[0] == "agg" and t[1] in ("tuple", "adt", "closure", "array"):
         ops = t[4]
         if isinstance(idx, int) and idx < len(ops):
@@ -916,6 +929,17 @@ def fold_int(t):
             return None
     if t[0] == "cast":
         return fold_int(t[2])
+    # length of a constant byte string / str / array: `b"\r\n\r\n".len()`, `NAME.len()` for `const NAME: &[u8] = b".."`
+    if (t[0] == "call" and t[1].endswith("::len") and len(t[2]) == 1) or (t[0] == "unop" and t[1] == "PtrMetadata"):
+        x = strip(t[2][0] if t[0] == "call" else t[2])
+        while x[0] in ("ref", "deref", "cast"):
+            x = strip(x[2] if x[0] in ("ref", "cast") else x[1])
+        if x[0] == "const" and isinstance(x[1], (bytes, bytearray)) and x[3] and ("[u8" in x[3] or "str" in x[3]) and "Option" not in x[3]:
+            return len(x[1])
+        if x[0] == "const" and isinstance(x[1], str):
+            return len(x[1].encode())
+        if x[0] == "agg" and x[1] == "array":
+            return len(x[4])
     return None
 
 
